@@ -170,6 +170,69 @@ def e2e_default(kind, si, present, a, b):
         elif not same_default(obj.b, d): return False
     return True
 
+# ---- two (three) omitted fields of ONE model whose defaults are equal but of different types: each gets its own
+import collections
+class PtNT(NamedTuple):
+    x: int = 0
+    y: int = 0
+PAIR_POOL = (Decimal(0), Fraction(0), 0, 0.0, False, IE.ZERO, MyInt(0), complex(0, 0), Decimal(1), Fraction(1), 1, True, IE.ONE, 1.0,
+             PtNT(0, 0), (0, 0), collections.OrderedDict(), {}, collections.defaultdict(int), (), PtNT(), frozenset(), "", b"")
+NPP = len(PAIR_POOL)
+def mk_pair(kind, d1, d2):
+    if kind == 0:
+        @dataclasses.dataclass
+        class M:
+            a: int
+            p: Any = d1
+            q: Any = d2
+        try: M(1)
+        except Exception: pass
+        return M
+    if kind == 1:
+        class M(NamedTuple):
+            a: int
+            p: Any = d1
+            q: Any = d2
+        return M
+    class M:
+        def __init__(self, a: int, p: Any = d1, q: Any = d2): self.a, self.p, self.q = a, p, q
+    return M
+def _mutable(v): return isinstance(v, (dict, list, set))
+PAIR_MODELS, PAIR_LOADERS = {}, {}
+for _i in range(NPP):
+    for _j in range(NPP):
+        if _i == _j: continue
+        if not (PAIR_POOL[_i] == PAIR_POOL[_j]): continue                   # only the confusable (equal) pairs
+        for _kind in (0, 1, 2):
+            if _kind == 0 and (_mutable(PAIR_POOL[_i]) or _mutable(PAIR_POOL[_j])): continue      # dataclasses refuse mutable defaults
+            try:
+                _M = mk_pair(_kind, PAIR_POOL[_i], PAIR_POOL[_j])
+                PAIR_MODELS[(_kind, _i, _j)] = _M
+                PAIR_LOADERS[(_kind, _i, _j)] = Retort().get_loader(_M)
+            except Exception as _e:
+                BUILD_ERRORS.append(("pair", _kind, _i, _j, repr(_e)))
+PAIR_KEYS = sorted(PAIR_MODELS)
+NPK = len(PAIR_KEYS)
+def pair_same(got, d):
+    if type(got) is not type(d): return False
+    if isinstance(d, collections.defaultdict): return got == d and got.default_factory is d.default_factory
+    return got == d
+def default_pairs(ki, pp, pq, a, v):
+    key = PAIR_KEYS[ki]
+    kind, i, j = key
+    data = {"a": a}
+    if pp: data["p"] = v
+    if pq: data["q"] = v
+    obj = PAIR_LOADERS[key](data)
+    if type(obj) is not PAIR_MODELS[key] or obj.a != a: return False
+    if pp:
+        if obj.p is not v and obj.p != v: return False
+    elif not pair_same(obj.p, PAIR_POOL[i]): return False
+    if pq:
+        if obj.q is not v and obj.q != v: return False
+    elif not pair_same(obj.q, PAIR_POOL[j]): return False
+    return True
+
 # ---- parameter kinds: positional-only / positional-or-keyword / keyword-only, optional ones skipped
 class PK:
     def __init__(self, a: int, b: int = 10, /, c: int = 20, d: int = 30, *, e: int = 40, f: int):
@@ -260,6 +323,31 @@ def df(a, b):
 '''
 
 
+def _count_pairs():
+    import collections, enum
+    from decimal import Decimal
+    from fractions import Fraction
+    from typing import NamedTuple
+    class IE(enum.IntEnum):
+        ZERO = 0
+        ONE = 1
+    class MyInt(int): pass
+    class PtNT(NamedTuple):
+        x: int = 0
+        y: int = 0
+    pool = (Decimal(0), Fraction(0), 0, 0.0, False, IE.ZERO, MyInt(0), complex(0, 0), Decimal(1), Fraction(1), 1, True, IE.ONE, 1.0,
+            PtNT(0, 0), (0, 0), collections.OrderedDict(), {}, collections.defaultdict(int), (), PtNT(), frozenset(), "", b"")
+    mut = lambda v: isinstance(v, (dict, list, set))
+    n = 0
+    for i in range(len(pool)):
+        for j in range(len(pool)):
+            if i == j or not (pool[i] == pool[j]): continue
+            for kind in (0, 1, 2):
+                if kind == 0 and (mut(pool[i]) or mut(pool[j])): continue
+                n += 1
+    return n
+
+
 def build(tier, seed):
     quick = tier == "quick"
     tmo = 90 if quick else 600
@@ -289,6 +377,16 @@ def build(tier, seed):
               pre=["0 <= si < ND"], timeout=tmo,
               family="end-to-end: absent field holds the true default; real constructor called once",
               bounds="23 look-alike defaults x presence bit x symbolic int values x 3 debug modes")
+    # the number of confusable pairs is computed from the pool at build time
+    import collections as _c, decimal as _d, fractions as _f
+    npk = _count_pairs()
+    for lo in range(0, npk, 60):
+        hi = min(npk, lo + 60)
+        me.ob(f"default_pairs_{lo:03d}", "ki: int, pp: bool, pq: bool, a: int, v: int", "return default_pairs(pick(ki - %d, %d) + %d, pp, pq, a, v)" % (lo, hi - lo, lo),
+              pre=[f"{lo} <= ki < {hi}"], timeout=tmo,
+              family="two defaulted fields of one model with equal but differently typed defaults (incl. container subclasses): each omitted field gets its own",
+              bounds=f"models {lo}..{hi - 1} of {npk}: every ordered pair of equal values from a 24-value pool (Decimal/Fraction/int/float/bool/IntEnum/int subclass/complex 0 and 1, "
+                     "NamedTuple instance vs tuple, OrderedDict / defaultdict vs dict, empty containers) x dataclass / NamedTuple / plain class; presence bits and values symbolic")
     me.ob("param_kinds", "pb: bool, pc: bool, pd: bool, pe: bool, a: int, b: int, c: int, d: int, e: int, f: int",
           "return pk(pb, pc, pd, pe, a, b, c, d, e, f)", timeout=tmo,
           family="end-to-end: positional-only / keyword-only parameters with skipped optionals",
